@@ -880,6 +880,23 @@ theorem numtree_faithful (es : List (Int × V)) (hasc : Asc es)
       all Gen.limits_MaxNumberTreeDepth r = es :=
   lookup_write_full _ (by decide) es hasc hsmall
 
+/-- **present with a null value is not absent.**  `Lookup` answers with a pair: found-or-not,
+    and the value.  Take values that may be null (`Option W`, `none` = the PDF null object) and a
+    key stored with the null value: both readers answer `found none` — the same answer — and
+    that is not the answer `notFound` an absent key gets. -/
+theorem null_value_present {W : Type} (maxDepth : Nat) (es : List (K × Option W)) (hasc : Asc es)
+    (r : Option (NTree K (Option W))) (hw : write es = .ok r) (hh : rootHeight r ≤ maxDepth)
+    (k : K) (hmem : (k, none) ∈ es) :
+    lookup maxDepth r k = .found none ∧
+    memLookup (extractInMemory maxDepth r) k = .found none ∧
+    lookup maxDepth r k ≠ .notFound ∧ memLookup (extractInMemory maxDepth r) k ≠ .notFound := by
+  have h1 := lookup_write_present maxDepth es hasc r hw hh k none hmem
+  have h2 := (readers_agree maxDepth es hasc r hw hh).2.2 k
+  rw [h1] at h2
+  refine ⟨h1, h2, ?_, ?_⟩
+  · rw [h1]; intro h; cases h
+  · rw [h2]; intro h; cases h
+
 end
 section
 variable {K V : Type} [KeyOrd K] [LawfulKeyOrd K] [DecidableEq K]
